@@ -267,6 +267,11 @@ class RegistryEngine:
                 mutant = rng.choice(muts_anc) if rng.random() < 0.3 else None
                 ops.append({"op": "register", "spec": gen_spec(mutant),
                             "as": rng.choice(["module", "fitmodel"])})
+            elif r < 0.5:
+                ops.append({"op": "reregister", "key": rng.choice(keys),
+                            "edit": rng.choice(["dup_name", "del_units",
+                                                "shorten_keys", "rename",
+                                                "rename"])})
             elif r < 0.6:
                 ops.append({"op": "deregister", "key": rng.choice(keys),
                             "how": rng.choice(["registered", "old_handle",
@@ -331,6 +336,7 @@ class RegistryEngine:
         n_rej = n_acc = 0
         self.files = {}   # path -> spec currently in that file
         self.handles = {}  # key -> model objects handed out so far
+        self.modules = {}  # key -> module object registered under it
 
         def viol(rule, site, feats, msg, i):
             return make_violation(self.prop, rule, site, feats, msg, i)
@@ -354,12 +360,27 @@ class RegistryEngine:
                 try:
                     if kind == "register":
                         mod = make_module(spec)
+                        self._last_mod = mod
                         feats["as"] = op.get("as")
                         if op.get("as") == "fitmodel":
                             obj = NaniteFitModel(mod)
                         else:
                             obj = mod
                         ret = logic.register_model(obj)
+                    elif kind == "reregister":
+                        mod = self.modules.get(op["key"])
+                        if mod is None or op["key"] not in ref:
+                            continue
+                        feats["edit"] = op["edit"]
+                        if op["edit"] == "dup_name":
+                            mod.parameter_names[1] = mod.parameter_names[0]
+                        elif op["edit"] == "del_units":
+                            del mod.parameter_units
+                        elif op["edit"] == "shorten_keys":
+                            mod.parameter_keys.pop()
+                        elif op["edit"] == "rename":
+                            mod.model_name = "renamed " + mod.model_name
+                        ret = logic.register_model(mod)
                     elif kind == "deregister":
                         if op["key"] in reg:
                             how = op.get("how", "registered")
@@ -407,10 +428,50 @@ class RegistryEngine:
                 if exc is None:
                     ref[spec["key"]] = spec
                     self.handles.setdefault(spec["key"], []).append(ret)
+                    self.modules[spec["key"]] = self._last_mod
                     n_acc += 1
                 else:
                     n_rej += 1
                     probes["registration rejected"] += 1
+            elif kind == "reregister":
+                if op["edit"] == "rename":
+                    if exc is not None:
+                        violation = viol(
+                            "M2", f"valid-rejected:{type(exc).__name__}",
+                            feats, "re-registering a validly edited module "
+                            f"raised {type(exc).__name__}: {exc}", i)
+                        break
+                    if reg[op["key"]].model_name != \
+                            self.modules[op["key"]].model_name:
+                        violation = viol(
+                            "M1", "stale-after-reregistration", feats,
+                            "the registry still shows the model as it was "
+                            "before the module was edited and registered "
+                            "again", i)
+                        break
+                    n_acc += 1
+                else:
+                    from nanite.model.core import ModelError as _ME
+                    if exc is None:
+                        violation = viol(
+                            "M2", "mutant-accepted", feats,
+                            f"a module edited into an inconsistent state "
+                            f"({op['edit']}) was accepted when registered "
+                            f"again", i)
+                        break
+                    if not isinstance(exc, _ME):
+                        feats["exc"] = type(exc).__name__
+                        violation = viol(
+                            "M2", f"wrong-class:{type(exc).__name__}", feats,
+                            f"rejected with {type(exc).__name__}", i)
+                        break
+                    n_rej += 1
+                    # the module object is broken now; the key stays
+                    # registered (registry unchanged) but cannot be used as
+                    # a reference for identity checks any more
+                    logic.models_available.pop(op["key"], None)
+                    ref.pop(op["key"], None)
+                    self.modules.pop(op["key"], None)
             elif kind == "deregister":
                 if op["key"] in ref and exc is not None and \
                         feats.get("how", "registered") != "registered":
@@ -424,6 +485,7 @@ class RegistryEngine:
                                          f"raised {out['exc']}", i)
                         break
                     del ref[op["key"]]
+                    self.modules.pop(op["key"], None)
                     n_acc += 1
                 else:
                     n_rej += 1
@@ -495,6 +557,7 @@ class RegistryEngine:
                         self.handles.setdefault(spec["key"], []).append(ret)
                         if op.get("register"):
                             ref[spec["key"]] = spec
+                            self.modules[spec["key"]] = ret.module
                     else:
                         n_rej += 1
             elif kind == "seed_params":
@@ -640,6 +703,26 @@ class RegistryEngine:
             return make_violation(self.prop, "M4", "parameter-lists", feats,
                                   "parameter keys/names/units differ from "
                                   "the module's", i)
+        # documented names and units, also when an ancillary has the same
+        # key as a fit parameter
+        for k, nm, un in zip(KEYS, NAMES, UNITS):
+            if md.get_parm_name(k) != nm or md.get_parm_unit(k) != un:
+                return make_violation(
+                    self.prop, "M4", "parameter-label", dict(feats, key=k),
+                    f"label/unit of fit parameter {k!r} is "
+                    f"{md.get_parm_name(k)!r}/{md.get_parm_unit(k)!r}, the "
+                    f"module says {nm!r}/{un!r}", i)
+        if spec.get("anc"):
+            if md.get_parm_name("anc_x") != "anc x" or \
+                    md.get_parm_unit("anc_x") != "m":
+                return make_violation(
+                    self.prop, "M4", "ancillary-label", feats,
+                    "label/unit of the model's own ancillary differ from "
+                    "the module's", i)
+        if md.get_parm_name("max_indent") != "Maximum indentation":
+            return make_violation(self.prop, "M4", "common-ancillary-label",
+                                  feats, "label of the common ancillary "
+                                  "max_indent differs", i)
         anc_keys = md.get_anc_parm_keys()
         want = ["max_indent"] + ((["E", "anc_x"] + (
             ["R"] if "R" in spec["anc"] else [])) if spec.get("anc") else [])
